@@ -58,20 +58,28 @@ def deep():
         yt, yopt = Y[i % 7]
         o.append(column3(ct, opt, yt, yopt, 9, [1, 2, 3, 2, 1], None, codec=('unc', 'snappy', 'lz4')[i % 3]))
         o.append(column3(ct, opt, yt, yopt, 10, [2, 3], [5, 1, 4], codec=('snappy', 'lz4', 'unc')[i % 3]))
+        o.append(column3(ct, opt, yt, yopt, 12, [5, 1, 1, 5], [7, 5], codec=('lz4', 'unc', 'snappy')[i % 3]))
     o.append(column3(1, 0, 5, 1, 8, 3, [4, 0, 4]))
+    o.append(column3(5, 1, 0, 1, 8, 3, [4, 0, 4], codec='snappy'))
     o.append(column3(2, 1, 4, 0, 17, [8, 9], None))
+    o.append(column3(0, 1, 5, 1, 17, [9, 8], [9, 8], codec='lz4'))
     # batch reader: zero-copy-eligible x column next to nullable / variable-length ones, all projections and batch sizes
     for i, (ct, opt) in enumerate(ALL):
         yt, yopt = Y[(i + 2) % 7]
-        o.append(batch3(ct, opt, yt, yopt, 9, [1, 2, 3, 2, 1], None, verify=(i % 4 == 0)))
-    for i, (ct, opt) in enumerate([(1, 0), (2, 0), (4, 0), (6, 0), (3, 0), (0, 0), (5, 1), (1, 1)]):
+        o.append(batch3(ct, opt, yt, yopt, 9, [2, 1, 3, 2, 1] if i % 2 else [3, 1, 2, 2, 1], None, verify=(i % 4 == 0)))       # zero-copy applies to the FIRST page of a chunk: first page of 2 / 3 rows vs every batch size
+    for i, (ct, opt) in enumerate(ALL):
         yt, yopt = Y[(i + 4) % 7]
         o.append(batch3(ct, opt, yt, yopt, 10, [2, 3], [5, 1, 4]))
-    for ct, opt, yt, yopt, codec in ((1, 0, 5, 1, 'snappy'), (2, 0, 0, 1, 'lz4'), (5, 1, 4, 0, 'snappy'), (6, 0, 1, 1, 'lz4'), (4, 0, 3, 1, 'snappy'), (0, 1, 2, 0, 'lz4')):
-        o.append(batch3(ct, opt, yt, yopt, 9, 3, [6, 3], codec=codec))
+    for i, (ct, opt) in enumerate(ALL):
+        yt, yopt = Y[(i + 5) % 7]
+        o.append(batch3(ct, opt, yt, yopt, 9, 3, [6, 3], codec=('snappy', 'lz4')[i % 2]))
+    for i, (ct, opt) in enumerate(ALL):
+        yt, yopt = Y[(i + 1) % 7]
+        o.append(batch3(ct, opt, yt, yopt, 12, [5, 1, 1, 5], None))
     o.append(batch3(1, 0, 5, 1, 8, 3, [4, 0, 4]))
-    o.append(batch3(2, 0, 4, 0, 12, [5, 1, 1, 5], None))
+    o.append(batch3(5, 1, 2, 0, 8, 3, [4, 0, 4]))
     o.append(batch3(4, 0, 1, 1, 17, [8, 9], None))
+    o.append(batch3(0, 1, 6, 0, 17, [9, 8], [9, 8]))
     # files of a few thousand rows (reader-internal chunk sizes), the three modes in one path
     o.append(big_batch(1, 0, 3, prefix='three-modes/large-batch'))
     o.append(big_batch(2, 1, 3, rows=2100, batch=300, ps=1, rgs=[1030, 1070], prefix='three-modes/large-batch'))
